@@ -13,6 +13,9 @@ use vcore::*;
 #[derive(Clone, Debug, Hash, Serialize, Deserialize)]
 pub struct C16Case {
     pub a: Operand,
+    /// when present the subject is this giant vector (> 2^31 bits) and `a` is ignored (empty)
+    #[serde(default)]
+    pub giant: Option<super::giant::GiantSpec>,
 }
 
 pub struct C16;
@@ -31,13 +34,13 @@ impl Property for C16 {
         "C16"
     }
     fn rule(&self) -> String {
-        "Cases: one operand of any zoo type/length/provenance (spare capacity, heap-mode Bv, produced-by-operation included); values biased to run-length patterns. Enumerated: all values n<=12 (quick)/18 (thorough) on all 20 types; for every n<=min(C,260) and every run length r<=n at either end, both polarities, with an interrupting opposite bit at {none, r, r+1, next word boundary, n-1}; long vectors: every length 321..2600 (thorough 8300), 1024..8193 bits with a bit in every word, the 70 400-bit fixed type at 7 lengths and a geometric ladder of lengths around every power of two from 2^14 to 2^21 (thorough 2^24) bits with runs ending around word, 4096-bit and 2^16 boundaries. Oracle: counting on the bit list for leading_zeros/leading_ones/trailing_zeros/trailing_ones/significant_bits/is_zero, plus the stated identities (lz+significant_bits=len, is_zero iff significant_bits=0, counts<=len, uniform => len, empty => 0). Non-trivial: some run r with 0<r<n whose boundary is within 1 of a storage-word boundary or which spans >= 2 words. Distinct by hash of the case.".into()
+        "Cases: one operand of any zoo type/length/provenance (spare capacity, heap-mode Bv, produced-by-operation included); values biased to run-length patterns. Enumerated: all values n<=12 (quick)/18 (thorough) on all 20 types; for every n<=min(C,260) and every run length r<=n at either end, both polarities, with an interrupting opposite bit at {none, r, r+1, next word boundary, n-1}; long vectors: every length 321..2600 (thorough 8300), 1024..8193 bits with a bit in every word, the 70 400-bit fixed type at 7 lengths and a geometric ladder of lengths around every power of two from 2^14 to 2^21 (thorough 2^24) bits with runs ending around word, 4096-bit and 2^16 boundaries. Giant vectors (2^31+69 and 2^32+77 bits, Bvd and heap Bv, four bit lists: top bit set / clear with decoys at the index reduced modulo 2^31 and 2^32, a small value, zero). Oracle: counting on the bit list for leading_zeros/leading_ones/trailing_zeros/trailing_ones/significant_bits/is_zero, plus the stated identities (lz+significant_bits=len, is_zero iff significant_bits=0, counts<=len, uniform => len, empty => 0). Non-trivial: some run r with 0<r<n whose boundary is within 1 of a storage-word boundary or which spans >= 2 words. Distinct by hash of the case.".into()
     }
     fn random_cases(&self, tier: Tier) -> u64 {
         tier.pick(300000, 9600000)
     }
     fn strategy(&self, tier: Tier) -> BoxedStrategy<C16Case> {
-        arb_operand(tier).prop_map(|a| C16Case { a }).boxed()
+        arb_operand(tier).prop_map(|a| C16Case { a, giant: None }).boxed()
     }
     fn exhaustive_subspaces(&self, tier: Tier) -> Vec<String> {
         vec![
@@ -59,7 +62,7 @@ impl Property for C16 {
                     if !mine {
                         continue;
                     }
-                    if !f(C16Case { a: Operand::canon(t, a) }) {
+                    if !f(C16Case { a: Operand::canon(t, a), giant: None }) {
                         return;
                     }
                 }
@@ -72,7 +75,7 @@ impl Property for C16 {
             let mut hot = Bits::zeros(n);
             hot.0[n / 2] = true;
             for a in [Bits::ones(n), hot, dense_value(n), Bits::zeros(n)] {
-                if !f(C16Case { a: Operand::canon(t, a) }) {
+                if !f(C16Case { a: Operand::canon(t, a), giant: None }) {
                     return;
                 }
             }
@@ -104,7 +107,7 @@ impl Property for C16 {
                 }
                 for a in vals {
                     for prov in [Prov::Canon, Prov::Spare(4200)] {
-                        if !f(C16Case { a: Operand { ty: t, bits: a.clone(), prov } }) {
+                        if !f(C16Case { a: Operand { ty: t, bits: a.clone(), prov }, giant: None }) {
                             return;
                         }
                     }
@@ -124,7 +127,7 @@ impl Property for C16 {
             let mut emit = |a: Bits, f: &mut dyn FnMut(C16Case) -> bool| -> bool {
                 j += 1;
                 let prov = if j % 4 == 3 && t != TID_HUGE { Prov::Spare(4200) } else { Prov::Canon };
-                f(C16Case { a: Operand { ty: t, bits: a, prov } })
+                f(C16Case { a: Operand { ty: t, bits: a, prov }, giant: None })
             };
             for a in [Bits::ones(n), Bits::zeros(n), dense_value(n)] {
                 if !emit(a, f) {
@@ -148,6 +151,19 @@ impl Property for C16 {
                         }
                     };
                     if !emit(a, f) {
+                        return;
+                    }
+                }
+            }
+        }
+        // beyond 2^31 and 2^32 bits: counts that no longer fit 31 / 32 bits
+        for len in super::giant::GIANT_LENS {
+            for heap_bv in [false, true] {
+                if !sh.mine() {
+                    continue;
+                }
+                for ones in super::giant::giant_lists(len) {
+                    if !f(C16Case { a: Operand::canon(TID_D, Bits::new()), giant: Some(super::giant::GiantSpec { len, ones, heap_bv }) }) {
                         return;
                     }
                 }
@@ -177,7 +193,7 @@ impl Property for C16 {
                                     let i = if top { n - 1 - p } else { p };
                                     b[i] = !b[i];
                                 }
-                                if !f(C16Case { a: Operand::canon(t, Bits(b)) }) {
+                                if !f(C16Case { a: Operand::canon(t, Bits(b)), giant: None }) {
                                     return;
                                 }
                             }
@@ -188,6 +204,30 @@ impl Property for C16 {
         }
     }
     fn check(&self, case: &C16Case, st: &mut Stats) -> CheckResult {
+        if let Some(g) = &case.giant {
+            ensure!(g.valid(), "bad-case", "giant case with a set bit beyond the length");
+            if !super::giant::giant_available(g.len) {
+                st.class("giant vector skipped: memory not available");
+                st.note(case, false);
+                return Ok(());
+            }
+            fn q<T: BitVector>(g: &super::giant::GiantSpec) -> (usize, usize, usize, usize, usize, bool) {
+                let v: T = g.build();
+                (v.leading_zeros(), v.leading_ones(), v.trailing_zeros(), v.trailing_ones(), v.significant_bits(), v.is_zero())
+            }
+            let got = match catch(|| if g.heap_bv { q::<Bv>(g) } else { q::<Bvd>(g) }) {
+                Ok(x) => x,
+                Err(p) => crate::fail!("counts:giant/panic", "bit-count query on a {}-bit vector with ones at {:?} panicked: {}", g.len, g.ones, p),
+            };
+            let exp = (g.leading_zeros(), g.leading_ones(), g.trailing_zeros(), g.trailing_ones(), g.significant(), g.ones.is_empty());
+            for (name, gv, ev) in [("leading_zeros", got.0, exp.0), ("leading_ones", got.1, exp.1), ("trailing_zeros", got.2, exp.2), ("trailing_ones", got.3, exp.3), ("significant_bits", got.4, exp.4)] {
+                ensure!(gv == ev, format!("counts:giant/{}", name), "{}() of a {}-bit vector with ones at {:?} = {}, expected {}", name, g.len, g.ones, gv, ev);
+            }
+            ensure!(got.5 == exp.5, "counts:giant/is_zero", "is_zero() of a {}-bit vector with ones at {:?} = {}", g.len, g.ones, got.5);
+            st.class("giant vector (> 2^31 bits)");
+            st.note(case, true);
+            return Ok(());
+        }
         let a = &case.a;
         let n = a.len();
         let what = format!("counts:{}", kind_of(a.ty));
